@@ -449,7 +449,7 @@ def gen_parse_texts(tier, lo, hi, reduced=False):
                 yield base
                 for sigil in ('!', '#', '%'):
                     yield base + sigil
-                if reduced or (tier == 'quick' and len(ds) > 2 and f is not forms[0] and f is not forms[3]):
+                if reduced or (tier == 'quick' and (len(ds) > 2 or f not in forms[:4]) and f is not forms[0]):
                     exps = REDUCED_EXPONENTS
                 else:
                     exps = EXPONENTS
@@ -642,6 +642,11 @@ def work_parse(shard):
     return part
 
 
+def hash_free_pick(text):
+    """Deterministic thinning for the quick tier (no hash(): fixed arithmetic on the characters)."""
+    return sum(text.encode('ascii')) % 3 != 0
+
+
 def _literal_from_program(s):
     """Token and value of the literal in line 1 'X#=<literal>' of the session's program."""
     code = bytes(s._impl.program.bytecode.getvalue())
@@ -664,6 +669,8 @@ def work_literal(shard):
     vals = num.make_values()
     try:
         for text in gen_parse_texts(tier, lo, hi, reduced=(tier == 'quick')):
+            if tier == 'quick' and 2 < len(text.strip('+-.0 ')) < 6 and hash_free_pick(text):
+                continue        # quick tier: one third of the 3-digit strings
             if text.endswith('E') or text.endswith('E 5') or text[0] == '+':
                 continue        # tokeniser-specific lexing (E followed by blank/nothing): not a literal question
             tb = text.encode('ascii')
